@@ -2,13 +2,13 @@
   D128/Proofs/LogAccSeries.lean — the reduction by the two leading digits and the artanh series of
   `decomposed192.log` (`LogAcc.logReduce`, `LogAcc.logSeries`), in ℚ.
 
-  * `Sj f j = Σ_{k ≤ j} f^(2k+1)/(2k+1)`   (the partial sums of the artanh series; `Sj f 12` is what the code sums)
+  * `Sj f j = Σ_{k ≤ j} f^(2k+1)/(2k+1)`   (the partial sums of the artanh series; `Sj f 16` is what the code sums)
   * `logReduce_spec` : `M = ⌊10 v⌋`, `v = val d1 ∈ [1,10)` normalised ⇒ `logReduce d1 M = .ok (d2, t2)` with
         `q = 10v/M`, `1 ≤ val d2 ≤ q`, `q(1 - lam) ≤ val d2` (`val d2 = q` when `M = 10`), `-57 ≤ d2.exp ≤ 0`
   * `logIter_spec`   : the loop invariant over `n` passes
   * `logSeries_spec` : `1 ≤ v2 = val d2 < 11/10` ⇒ `logSeries d2 t2 = .ok (res, t)` with, for the computed
         `f = val frc`,  `z(1-lam) ≤ f ≤ z(1+eps)/(1-lam)`, `z = (v2-1)/(v2+1)`, and
-        `Sj f 12·(1-lam)^38 ≤ val res ≤ Sj f 12`, exponent of `res` within ±5400, flag in `flag3`
+        `Sj f 16·(1-lam)^50 ≤ val res ≤ Sj f 16`, `-5930 ≤ res.exp ≤ 5400`, flag in `flag3`
 -/
 import D128.Proofs.LogAccScale
 set_option autoImplicit false
@@ -149,23 +149,23 @@ def SerInv (f : ℚ) (j : Nat) (s : Int8 × decomposed192 × decomposed192) : Pr
   flag3 s.1 ∧
   val s.2.1 ≤ f * (f ^ 2) ^ j ∧ f * (f ^ 2) ^ j * (1 - lam) ^ (2 * j) ≤ val s.2.1 ∧
   val s.2.2 ≤ Sj f j ∧ Sj f j * (1 - lam) ^ (3 * j + 2) ≤ val s.2.2 ∧
-  -200 - 400 * (j : Int) ≤ s.2.1.exp.toInt ∧ s.2.1.exp.toInt ≤ 200 + 400 * (j : Int) ∧
-  -400 - 400 * (j : Int) ≤ s.2.2.exp.toInt ∧ s.2.2.exp.toInt ≤ 400 + 400 * (j : Int)
+  -176 - 352 * (j : Int) ≤ s.2.1.exp.toInt ∧ s.2.1.exp.toInt ≤ 58 + 232 * (j : Int) ∧
+  -294 - 352 * (j : Int) ≤ s.2.2.exp.toInt ∧ s.2.2.exp.toInt ≤ 60 + 233 * (j : Int)
 
 theorem pow_mono_exp (u : ℚ) (hu0 : 0 < u) (hu1 : u ≤ 1) {a b : Nat} (h : a ≤ b) : u ^ b ≤ u ^ a :=
   pow_le_pow_of_le_one hu0.le hu1 h
 
 /-- one pass of the loop preserves the invariant -/
-theorem logTerm_spec (sqr : decomposed192) (f : ℚ) (hf : 0 ≤ f) (j : Nat) (hj : j ≤ 11)
+theorem logTerm_spec (sqr : decomposed192) (f : ℚ) (hf : 0 ≤ f) (j : Nat) (hj : j ≤ 15)
     (hsq1 : val sqr ≤ f ^ 2) (hsq2 : f ^ 2 * (1 - lam) ≤ val sqr)
-    (hse0 : -360 ≤ sqr.exp.toInt) (hse1 : sqr.exp.toInt ≤ 180)
+    (hse0 : -352 ≤ sqr.exp.toInt) (hse1 : sqr.exp.toInt ≤ 174)
     (i : UInt64) (hi : i.toNat = 2 * (j + 1) + 1)
     (s : Int8 × decomposed192 × decomposed192) (h : SerInv f j s) :
     ∃ s', logTerm sqr i s = .ok s' ∧ SerInv f (j + 1) s' := by
   obtain ⟨ht, hF1, hF2, hR1, hR2, eF0, eF1, eR0, eR1⟩ := h
   have hu0 := one_sub_lam_pos
   have hu1 := one_sub_lam_le
-  have hjz : (j : Int) ≤ 11 := by exact_mod_cast hj
+  have hjz : (j : Int) ≤ 15 := by exact_mod_cast hj
   have hF0 : 0 ≤ val s.2.1 := val_nonneg _
   have hR0 : 0 ≤ val s.2.2 := val_nonneg _
   have hP : 0 ≤ f * (f ^ 2) ^ j := by positivity
@@ -259,11 +259,11 @@ theorem logTerm_spec (sqr : decomposed192) (f : ℚ) (hf : 0 ≤ f) (j : Nat) (h
       _ ≤ val s.2.2 * (1 - lam) + val y * (1 - lam) := add_le_add hA hB
       _ = (val s.2.2 + val y) * (1 - lam) := by ring
       _ ≤ val z := z1
-  · show -200 - 400 * ((j + 1 : Nat) : Int) ≤ x.exp.toInt
+  · show -176 - 352 * ((j + 1 : Nat) : Int) ≤ x.exp.toInt
     push_cast; omega
-  · show x.exp.toInt ≤ 200 + 400 * ((j + 1 : Nat) : Int)
+  · show x.exp.toInt ≤ 58 + 232 * ((j + 1 : Nat) : Int)
     push_cast; omega
-  · show -400 - 400 * ((j + 1 : Nat) : Int) ≤ z.exp.toInt
+  · show -294 - 352 * ((j + 1 : Nat) : Int) ≤ z.exp.toInt
     push_cast
     rcases le_total (x.exp.toInt - 118) 0 with h | h
     · rw [min_eq_left h] at ye0
@@ -274,7 +274,7 @@ theorem logTerm_spec (sqr : decomposed192) (f : ℚ) (hf : 0 ≤ f) (j : Nat) (h
       rcases le_total s.2.2.exp.toInt y.exp.toInt with h' | h'
       · rw [min_eq_left h'] at ze0; omega
       · rw [min_eq_right h'] at ze0; omega
-  · show z.exp.toInt ≤ 400 + 400 * ((j + 1 : Nat) : Int)
+  · show z.exp.toInt ≤ 60 + 233 * ((j + 1 : Nat) : Int)
     push_cast
     rcases le_total (x.exp.toInt + 1) 0 with h | h
     · rw [max_eq_right h] at ye1
@@ -289,8 +289,8 @@ theorem logTerm_spec (sqr : decomposed192) (f : ℚ) (hf : 0 ≤ f) (j : Nat) (h
 /-- `n` passes -/
 theorem logIter_spec (sqr : decomposed192) (f : ℚ) (hf : 0 ≤ f)
     (hsq1 : val sqr ≤ f ^ 2) (hsq2 : f ^ 2 * (1 - lam) ≤ val sqr)
-    (hse0 : -360 ≤ sqr.exp.toInt) (hse1 : sqr.exp.toInt ≤ 180) (n : Nat) :
-    ∀ (j : Nat) (i : UInt64) (s : Int8 × decomposed192 × decomposed192), j + n ≤ 12 →
+    (hse0 : -352 ≤ sqr.exp.toInt) (hse1 : sqr.exp.toInt ≤ 174) (n : Nat) :
+    ∀ (j : Nat) (i : UInt64) (s : Int8 × decomposed192 × decomposed192), j + n ≤ 16 →
       i.toNat = 2 * (j + 1) + 1 → SerInv f j s →
       ∃ s', logIter sqr n i s = .ok s' ∧ SerInv f (j + n) s' := by
   induction n with
@@ -316,8 +316,8 @@ theorem logSeries_spec (d2 : decomposed192) (t2 : Int8) (ht2 : flag3 t2)
     ∃ (res : decomposed192) (t : Int8) (f : ℚ), logSeries d2 t2 = .ok (res, t) ∧ flag3 t ∧ 0 ≤ f ∧
       (val d2 - 1) / (val d2 + 1) * (1 - lam) ≤ f ∧
       f ≤ (val d2 - 1) / (val d2 + 1) * ((1 + Root.eps) / (1 - lam)) ∧
-      Sj f 12 * (1 - lam) ^ 38 ≤ val res ∧ val res ≤ Sj f 12 ∧
-      -5400 ≤ res.exp.toInt ∧ res.exp.toInt ≤ 5400 := by
+      Sj f 16 * (1 - lam) ^ 50 ≤ val res ∧ val res ≤ Sj f 16 ∧
+      -5930 ≤ res.exp.toInt ∧ res.exp.toInt ≤ 5400 := by
   have hu0 := one_sub_lam_pos
   have hu1 := one_sub_lam_le
   obtain ⟨n, hn, hnv, hne⟩ := sub1_exact d2 h1 he0 he1
@@ -346,12 +346,12 @@ theorem logSeries_spec (d2 : decomposed192) (t2 : Int8) (ht2 : flag3 t2)
       calc Sj (val frc) 0 * (1 - lam) ^ (3 * 0 + 2) ≤ val frc * 1 :=
             mul_le_mul_of_nonneg_left this hf0
         _ = val frc := mul_one _
-    · show -200 - 400 * ((0 : Nat) : Int) ≤ frc.exp.toInt; push_cast; omega
-    · show frc.exp.toInt ≤ 200 + 400 * ((0 : Nat) : Int); push_cast; omega
-    · show -400 - 400 * ((0 : Nat) : Int) ≤ frc.exp.toInt; push_cast; omega
-    · show frc.exp.toInt ≤ 400 + 400 * ((0 : Nat) : Int); push_cast; omega
+    · show -176 - 352 * ((0 : Nat) : Int) ≤ frc.exp.toInt; push_cast; omega
+    · show frc.exp.toInt ≤ 58 + 232 * ((0 : Nat) : Int); push_cast; omega
+    · show -294 - 352 * ((0 : Nat) : Int) ≤ frc.exp.toInt; push_cast; omega
+    · show frc.exp.toInt ≤ 60 + 233 * ((0 : Nat) : Int); push_cast; omega
   obtain ⟨s', hs', hinv⟩ := logIter_spec sq (val frc) hf0 s2
-    s1 (by omega) (by omega) 12 0 3 (tf, frc, frc) (by omega) (by decide) hinv0
+    s1 (by omega) (by omega) 16 0 3 (tf, frc, frc) (by omega) (by decide) hinv0
   obtain ⟨i1, -, -, i4, i5, -, -, i8, i9⟩ := hinv
   refine ⟨s'.2.2, s'.1, val frc, ?_, i1, hf0, ?_, ?_, ?_, ?_, ?_, ?_⟩
   · unfold logSeries
@@ -375,9 +375,9 @@ theorem logSeries_spec (d2 : decomposed192) (t2 : Int8) (ht2 : flag3 t2)
           field_simp
   · simpa using i5
   · exact i4
-  · have : -400 - 400 * ((0 + 12 : Nat) : Int) ≤ s'.2.2.exp.toInt := i8
+  · have : -294 - 352 * ((0 + 16 : Nat) : Int) ≤ s'.2.2.exp.toInt := i8
     push_cast at this; omega
-  · have : s'.2.2.exp.toInt ≤ 400 + 400 * ((0 + 12 : Nat) : Int) := i9
+  · have : s'.2.2.exp.toInt ≤ 60 + 233 * ((0 + 16 : Nat) : Int) := i9
     push_cast at this; omega
 
 end LogAcc
